@@ -234,3 +234,22 @@ SPECS['C10'] = dict(
     quick=dict(workers=16, cases=60, size=100, timeout=1500),
     thorough=dict(workers=16, cases=3000, size=100, timeout=7200),
 )
+
+SPECS['C05'] = dict(
+    kind='native', drivers=['p_c05.cpp'], shims=['sut_strm'], with_lib=True,
+    level='exploration',
+    technique='model equality for generated task attributes and print/parse round-trip at generated stream positions (rapidcheck)',
+    level_text=('Part A: generated task models with every README field independently present/absent, calendar-level defaults, shuffled property order, folding and 1-3 '
+                'events per calendar are rendered to text and the task read must equal the model. Part B: generated events over the whole input language are consumed for '
+                'k in {0,1,2,5,62..66,127,130,200} occurrences, written with echs_task_icalify, re-read, and attributes plus the next 150 (start, duration) pairs compared '
+                'with the original stream at that position.'),
+    level_note='the expected attribute dump is computed from the model by props/icalgen.hpp; owner is excluded from the round-trip comparison (the serialisation does not carry it)',
+    rule=('attrs case = calendar text + expected canonical dumps; rt case = (calendar text with one event: 1-3 RRULEs from the C01 generator plus SHIFT/BYEASTER/SCALE, optional RDATE, '
+          'EXDATE, DURATION; k). non-trivial: attrs: >=3 fields set and one of LOCATION/SHELL/IFILE/MAIL-OUT/UMASK set without SETUID; rt: k>0 and the rule has a BY part. '
+          'distinct = case text'),
+    assumptions=['values avoid backslash, comma-in-list and colon subtleties whose meaning the statement does not pin',
+                 'the spelling of the written text is never compared, only what it reads back as',
+                 'DTSTAMP and generated UIDs are not compared'],
+    quick=dict(workers=16, cases=400, size=100, timeout=1500),
+    thorough=dict(workers=16, cases=16000, size=100, timeout=7200),
+)
